@@ -31,6 +31,18 @@ def kern_jobs(tier):
                     out.append(dict(base, name=nm + "-xor", solver=SOLVER, prop_exclude="KS:",
                                     desc="dst == src ^ LE(ctx->x) (or LE(ctx->x) for src==NULL); 64-bit counter +1 with carry; other "
                                          "state words, bytes before dst and a separate source unchanged; memory safety"))
+    if tier == "quick":     # one offset pair per (rounds, variant, source mode)
+        keep, sel = set(), []
+        for j in out:
+            k = (j["defs"]["ROUNDS"], j["defs"]["VARIANT"], j["defs"]["SRCMODE"])
+            pref = {8: (8, 0), 4: (4, 4), 0: (3, 5)}[j["defs"]["VARIANT"]]
+            want = (j["defs"]["OFFS"], j["defs"]["OFFD"])
+            if j["defs"]["SRCMODE"] == 0 and want != pref:
+                continue
+            if j["defs"]["SRCMODE"] != 0 and j["defs"]["OFFD"] != {8: 0, 4: 4, 0: 7}[j["defs"]["VARIANT"]]:
+                continue
+            sel.append(j)
+        out = sel
     seen, uniq = set(), []
     for j in out:
         if j["name"] not in seen:
@@ -39,5 +51,43 @@ def kern_jobs(tier):
     return uniq
 
 
+def hchacha_jobs(tier):
+    out = []
+    for rounds in (8, 12, 20):
+        for ks in (16, 32, 128, 256):
+            for ivnull in (0, 1):
+                if tier == "quick" and ks in (128, 256) and (ivnull or rounds != 20):
+                    continue
+                base = {"src": "kern.c", "unwind": 66,
+                        "defs": {"MODE": 1, "ROUNDS": rounds, "KEYSIZE": ks, "IVNULL": ivnull},
+                        "shape": "hchacha rounds=%d key_size argument=%d iv=%s; key and 16-byte iv symbolic" % (
+                            rounds, ks, "NULL" if ivnull else "given")}
+                nm = "hchacha-r%d-k%d-iv%d" % (rounds, ks, 1 - ivnull)
+                out.append(dict(base, name=nm + "-ks", prop_include="KS:", **CVC5BV,
+                                desc="32 output bytes == reference HChaCha (RFC-order rounds, words 0..3,12..15)"))
+                out.append(dict(base, name=nm + "-mem", solver=SOLVER, prop_exclude="KS:",
+                                desc="key not modified, memory safety of hchacha incl. exact 16/32-byte key, 16-byte iv, 32-byte dst"))
+    return out
+
+
+def setup_jobs(tier):
+    out = []
+    for ks in (16, 32, 128, 256):
+        for ivnull in (0, 1):
+            for ctrnull in (0, 1):
+                if tier == "quick" and ks in (128, 256) and (ivnull or ctrnull):
+                    continue
+                out.append({"name": "setup-k%d-iv%d-ctr%d" % (ks, 1 - ivnull, 1 - ctrnull), "src": "kern.c", "unwind": 300,
+                            "solver": SOLVER, "defs": {"MODE": 2, "ROUNDS": 20, "KEYSIZE": ks, "IVNULL": ivnull, "CTRNULL": ctrnull},
+                            "shape": "key_size argument=%d iv=%s counter=%s; key, nonce, counter symbolic" % (
+                                ks, "NULL" if ivnull else "given", "NULL" if ctrnull else "given"),
+                            "desc": "chacha_init / chacha_str_init state == constants|key|counter|nonce layout; counter_set_u64 / "
+                                    "counter_get_u64; chacha_final / chacha_str_final zeroise"})
+    out.append({"name": "anchor-chacha", "src": "kern.c", "unwind": 66, "solver": SOLVER, "defs": {"MODE": 3, "ROUNDS": 20, "KEYSIZE": 32},
+                "shape": "concrete published vectors (Strombergson TC1 8/12/20 rounds x 128/256-bit key; XChaCha draft HChaCha20)",
+                "desc": "the harness reference reproduces published key stream / HChaCha20 output (pins the oracle, not the library)"})
+    return out
+
+
 def jobs(tier):
-    return kern_jobs(tier)
+    return kern_jobs(tier) + hchacha_jobs(tier) + setup_jobs(tier)
